@@ -294,7 +294,7 @@ class WrappedDisk(DiskBase):
     making the sketch a square"""
 
     chops: ClassVar = [
-        [6],
+        [1, 6],  # axis 0: the ring around the core and the outer ring
         [1, 2],
     ]
 
